@@ -139,11 +139,194 @@ def answerH5 (m : List (String × String)) : String :=
       s!"c={showRat c1.tol}|{c1.path}|{c1.node}|{c1.name} sees={showEntries sees} after={showEntries (fresh.read d')}"
   | _, _ => "bad-op"
 
+/-! ### Lives (`jgl`, `h5l`)
+
+  jgl ops=<op;...> post=<op;...> bat=<data|...>
+       op   : N~a+b | T~a~<type> | R+~a | R-~a | D~a~<rat> | D-~a | X~a | M~a~b | K~a+b | S~a~<ns> | C | Q |
+              V~<data> | P                      (`_` = no operation)
+       data : name^kind+name^kind  (`_` = empty)
+     -> <out>@<state>;...  (life `ops`; P continues with the restored grammar)
+        | O=<state> C=<state>  (original and its restored copy after the life)
+        so=<schema> sc=<schema> vo=<verdicts> vc=<verdicts>
+        | <out>;...#<out>;...  (`post` on the original and on the copy)
+        O=<state> C=<state> vo=<verdicts> vc=<verdicts>
+       state  : props/req/df/ns, each sorted; schema : props/req
+
+  h5l disk=<...> cache=<tol>|<path>|<node>|<name> ops=<op;...>
+       op : T~<rat> N~<name> W~<in>~<out> Q~<x>  by the original;  P = dumps, L = loads;
+            t~ n~ w~ q~  the same by the restored cache
+     -> <out>;... | O=<settings> C=<settings|_> after=<entries seen by a fresh attachment>
+-/
+
+def showPairsSorted (f : α → String) (l : List (String × α)) : String :=
+  let shown := sortByKey (l.map (fun kv => (kv.1, kv.1 ++ "^" ++ f kv.2)))
+  if shown.isEmpty then "[]" else ",".intercalate (shown.map Prod.snd)
+
+def showNamesSorted (l : List String) : String :=
+  let shown := sortByKey (l.map (fun n => (n, n)))
+  if shown.isEmpty then "[]" else ",".intercalate (shown.map Prod.snd)
+
+def showG (g : Grammar) : String :=
+  s!"{showPairsSorted toString g.props}/{showNamesSorted g.required}/{showPairsSorted showRat g.defaults}/{showPairsSorted id g.toNs}"
+
+def showSchema (s : GSchema) : String := s!"{showPairsSorted toString s.props}/{showNamesSorted s.req}"
+
+def showGOut : GOut → String
+  | .ok => "ok"
+  | .keyError => "E:key"
+  | .valueError => "E:value"
+  | .verdict b => if b then "v1" else "v0"
+  | .schema s => "s[" ++ showSchema s ++ "]"
+
+def plusList (s : String) : List String := if s = "_" || s = "" then [] else s.splitOn "+"
+
+def parseData (s : String) : Option (List (String × Nat)) :=
+  (plusList s).mapM (fun t => match t.splitOn "^" with
+    | [n, k] => k.toNat?.map (fun x => (n, x))
+    | _ => none)
+
+def parseGOp (s : String) : Option GOp :=
+  match s.splitOn "~" with
+  | ["N", l] => some (.names (plusList l))
+  | ["T", n, t] => t.toNat?.map (fun x => .types n x)
+  | ["R+", n] => some (.reqAdd n)
+  | ["R-", n] => some (.reqDiscard n)
+  | ["D", n, v] => (parseRat? v).map (fun r => .setDefault n r)
+  | ["D-", n] => some (.popDefault n)
+  | ["X", n] => some (.del n)
+  | ["M", a, b] => some (.rename a b)
+  | ["K", l] => some (.restrict (plusList l))
+  | ["S", n, ns] => some (.addNs n ns)
+  | ["C"] => some .clear
+  | ["Q"] => some .schema
+  | ["V", d] => (parseData d).map (fun x => .validate x)
+  | ["P"] => some .pickle
+  | _ => none
+
+def parseGOps (s : String) : Option (List GOp) :=
+  if s = "_" || s = "[]" || s = "" then some [] else (s.splitOn ";").mapM parseGOp
+
+/-- Run the operations, printing the answer and the definition after each. -/
+def traceG (j : JG) (ops : List GOp) (withState : Bool) : JG × List String :=
+  ops.foldl (fun (acc : JG × List String) op =>
+    let r := acc.1.step op
+    (r.1, acc.2 ++ [if withState then showGOut r.2 ++ "@" ++ showG r.1.g else showGOut r.2])) (j, [])
+
+def verdicts (j : JG) (bat : List (List (String × Nat))) : JG × String :=
+  bat.foldl (fun (acc : JG × String) d =>
+    let r := acc.1.validate d
+    (r.2, acc.2 ++ (if r.1 then "1" else "0"))) (j, "")
+
+def joinOr (l : List String) : String := if l.isEmpty then "_" else ";".intercalate l
+
+def answerJgl (m : List (String × String)) : String :=
+  let batS := field m "bat"
+  let bat : Option (List (List (String × Nat))) :=
+    if batS = "[]" || batS = "" then some [] else (batS.splitOn "|").mapM parseData
+  match parseGOps (field m "ops"), parseGOps (field m "post"), bat with
+  | some ops, some post, some bat =>
+    let (j, tr) := traceG JG.fresh ops true
+    let s := j.getstate
+    match JG.setstate s.1 with
+    | none => s!"{joinOr tr} | O={showG s.2.g} C=E:key"
+    | some c =>
+      let o := s.2
+      let head := s!"{joinOr tr} | O={showG o.g} C={showG c.g}"
+      let (o1, so) := o.step .schema
+      let (c1, sc) := c.step .schema
+      let (o2, vo) := verdicts o1 bat
+      let (c2, vc) := verdicts c1 bat
+      let (o3, po) := traceG o2 post false
+      let (c3, pc) := traceG c2 post false
+      let (_, vo2) := verdicts o3 bat
+      let (_, vc2) := verdicts c3 bat
+      s!"{head} so={showGOut so} sc={showGOut sc} vo={vo} vc={vc} | {joinOr po}#{joinOr pc} O={showG o3.g} C={showG c3.g} vo={vo2} vc={vc2}"
+  | _, _, _ => "bad-op"
+
+def insertEntry (e : Entry) : List Entry → List Entry
+  | [] => [e]
+  | y :: r => if e.input < y.input then e :: y :: r else y :: insertEntry e r
+
+def sortEntries (l : List Entry) : List Entry := l.foldl (fun acc e => insertEntry e acc) []
+
+def showSettings (c : HCache) : String := s!"{showRat c.tol}|{c.path}|{c.node}|{c.name}"
+
+def showHOut : HOut → String
+  | .ok => "ok"
+  | .valueError => "E:value"
+  | .found none => "miss"
+  | .found (some o) => "h" ++ showRat o
+
+structure LWorld where
+  disk : Disk
+  orig : HLife
+  blob : Option HState
+  copy : Option HCache
+
+def parseHOp (f : List String) : Option HOp :=
+  match f with
+  | [_, a] => match f.head! with
+    | "T" | "t" => (parseRat? a).map HOp.setTol
+    | "N" | "n" => some (HOp.setName a)
+    | "Q" | "q" => (parseRat? a).map HOp.lookup
+    | _ => none
+  | [_, a, b] => match parseRat? a, parseRat? b with
+    | some x, some y => some (HOp.write ⟨x, y⟩)
+    | _, _ => none
+  | _ => none
+
+def stepL (w : LWorld) (tok : String) : LWorld × String :=
+  let f := tok.splitOn "~"
+  match f with
+  | ["P"] => ({ w with blob := some w.orig.cache.getstate }, "ok")
+  | ["L"] => match w.blob with
+    | none => (w, "bad-op")
+    | some st =>
+      let c := HCache.setstate w.disk st
+      ({ w with copy := some c }, s!"c={showSettings c},sees={showEntries (sortEntries (c.read w.disk))}")
+  | _ =>
+    match parseHOp f with
+    | none => (w, "bad-op")
+    | some op =>
+      let isCopy := match f.head? with
+        | some h => h == "t" || h == "n" || h == "w" || h == "q"
+        | none => false
+      if isCopy then
+        match w.copy with
+        | none => (w, "bad-op")
+        | some c =>
+          let r := HLife.step (w.disk, ⟨c.getstate, c⟩) op
+          ({ w with disk := r.1.1, copy := some r.1.2.cache }, showHOut r.2)
+      else
+        let r := HLife.step (w.disk, w.orig) op
+        ({ w with disk := r.1.1, orig := r.1.2 }, showHOut r.2)
+
+def answerH5l (m : List (String × String)) : String :=
+  match parseDisk (field m "disk"), (field m "cache").splitOn "|" with
+  | some d, [tol, p, n, nm] =>
+    match parseRat? tol with
+    | none => "bad-op"
+    | some t =>
+      let w0 : LWorld := ⟨d, HLife.create d ⟨t, p, n, nm⟩, none, none⟩
+      let opsS := field m "ops"
+      let toks := if opsS = "_" || opsS = "[]" || opsS = "" then [] else opsS.splitOn ";"
+      let (w, outs) := toks.foldl (fun (acc : LWorld × List String) tok =>
+        let r := stepL acc.1 tok
+        (r.1, acc.2 ++ [r.2])) (w0, [])
+      let fresh := HCache.attach w.disk w.orig.cache.getstate
+      let cs := match w.copy with
+        | some c => showSettings c
+        | none => "_"
+      s!"{joinOr outs} | O={showSettings w.orig.cache} C={cs} after={showEntries (sortEntries (fresh.read w.disk))}"
+  | _, _ => "bad-op"
+
 def answer (line : String) : String :=
   match tokens line with
   | "rt" :: rest => answerRt (kvs rest)
   | "jg" :: rest => answerJg (kvs rest)
   | "h5" :: rest => answerH5 (kvs rest)
+  | "jgl" :: rest => answerJgl (kvs rest)
+  | "h5l" :: rest => answerH5l (kvs rest)
   | _ => "bad-op"
 
 def main : IO Unit := driverLoop (fun (_ : Unit) l => ((), answer l)) ()
